@@ -201,6 +201,18 @@ CHECKS["C15"] = dict(
          "Assumes the documented preconditions (stripped cells no longer than their column, headers without blanks, cells without "
          "the delimiter). Outside: wider tables, header_substitute, nested / hanging INI values, boolean conversion.")
 
+CHECKS["C14"] = dict(
+    text="Bounded symbolic execution of the real base parsers: CommandParser on 1-2 line outputs built as [0-2 symbolic chars] + "
+         "error phrase whose every letter has symbolic case + [0-2 symbolic chars] for all built-in, multi-line and extra phrases, "
+         "also after another parser with extra phrases was constructed (rejected iff documented, otherwise content handed over "
+         "unchanged); JSONParser on documents after 0-2 symbolic noise lines, non-documents, empty, null; YAMLParser with ignore-"
+         "lines at every position; TextFileOutput get / in / keep_scan / last_scan / token_scan on lines whose containment of each "
+         "term is a symbolic boolean (all/any, num, reverse) against a list-comprehension oracle; get_after as a finite-domain "
+         "exploration over 8 instants x 6 thresholds x continuation lines x with/without year against the documented 330-day rule.",
+    note="json / yaml decoders, strptime and datetime are C code: they run natively on concrete text only (guarded); get_after is "
+         "therefore solver-chosen enumeration, stated as such. One recorded finding (Feb 29 line without year raises ValueError). "
+         "Outside: valid JSON scalars, the ~280 concrete parsers built on these bases.")
+
 NOT_APPLICABLE = {
 }
 
